@@ -80,7 +80,7 @@ CHECKS = {
    note="Trusts the harness's generator/normaliser (gen/) and Go's compress/zlib. Inputs rejected by the writer are counted out-of-domain, not held.",
    technique="runtime monitoring: reference-model oracle (generator's record list) over executions of the real writer+reader on generated inputs"),
  "C02": dict(level="exploration", design="5/C02",
-   text="Every key class around every record key (exact, predecessor, successor, prefix, +-1, empty, beyond-last; for logs update index u, u+-1, 0, max) is sought in writer-produced tables with 0..3 index levels; oracle = suffix of the generator's list.",
+   text="Every key class around every record key (exact, predecessor, successor, prefix, +-1, empty, beyond-last; for logs update index u, u+-1, 0, max) is sought in writer-produced tables with 0..3 index levels; oracle = suffix of the generator's list. Also (one table in eight): every ReadBlock of the block source fails once in turn while the table is opened, scanned and sought: each answer must be an error or exactly the undisturbed answer (a read error never becomes a silently shorter result), and the reader must not panic.",
    note="Trusts the generator; for large tables only a window after the landing point is compared for most keys (full suffix for every 16th key and near the end).",
    technique="runtime monitoring: reference-model oracle (binary search in the input list) over real Reader seeks on generated tables"),
 }
